@@ -9,6 +9,10 @@ for d in seeded/C*-*/; do
   id=$(basename $d | cut -d- -f1)
   extra=""
   [ -f $d/also.txt ] && extra=$(cat $d/also.txt)
+  if ! git -C /repo apply --check $d/patch.diff 2>/dev/null; then
+    echo -e "$(basename $d)\t-\tpatch-does-not-apply\t" >> $out
+    continue
+  fi
   tools/run_seeded.sh $d quick $id $extra > /dev/null 2>&1
   while read -r line; do
     chk=$(echo "$line" | awk '{print $1}')
@@ -17,3 +21,4 @@ for d in seeded/C*-*/; do
     echo -e "$(basename $d)\t$chk\t$ex\t$sig" >> $out
   done < $d/result.txt
 done
+echo DONE >> $out
